@@ -114,7 +114,7 @@ NegHeader ==
   /\ UNCHANGED <<role, bits, result, ncur, refused, estab, ovars, pvars, cvars, handled, deadline, fvars>>
 
 NegCall(f) ==
-  /\ Running /\ ncur = "none" /\ addr.local # "none"
+  /\ Running /\ ncur = "none"
   /\ Nec(f) \subseteq bits /\ Pro(f) \cap bits = {}
   /\ ncur' = f /\ refused' = FALSE
   /\ UNCHANGED <<role, bits, result, addr, estab, ovars, pvars, cvars, handled, deadline, fvars>>
@@ -148,7 +148,8 @@ NegAbort ==
   /\ UNCHANGED <<role, bits, ncur, refused, addr, estab, ovars, pvars, cvars, handled, deadline, fvars>>
 
 BindAddr(f) == IF f = "bind" /\ role = "init"
-               THEN [addr EXCEPT !.local = IF "EmptyAddress" \in Dev THEN "" ELSE "full"] ELSE addr
+               THEN [addr EXCEPT !.local = IF "EmptyAddress" \in Dev THEN "" ELSE "full",
+                                 !.remote = IF "BindChangesRemote" \in Dev THEN "full" ELSE @] ELSE addr
 
 -----------------------------------------------------------------------------
 (* Established .. Closed: the application's goroutines run.  Call protocol of        *)
@@ -424,7 +425,8 @@ Classes == {"nil", "streamerr", "other", "closed"}
 
 NegNext ==
   \/ NegHeader \/ NegAbort \/ NegRefuse
-  \/ \E f \in Features : NegCall(f) \/ \E ok \in BOOLEAN : NegRet(f, ok, BindAddr(f))
+  \/ \E f \in Features : (addr.local # "none" /\ NegCall(f))      \* the stream headers come first
+                          \/ \E ok \in BOOLEAN : NegRet(f, ok, BindAddr(f))
 
 EstNext ==
   \/ PeerFeed \/ Lookup \/ Handoff \/ Skip \/ Handle \/ AwaitClose
@@ -494,6 +496,8 @@ X_RequestOnlyWhenEstablished == table # {} => result = "ok"
 
 (* 4. the addresses after establishment are what negotiation established, for ever     *)
 X_AddrStable == result = "ok" => addr = estab
+(* the peer's address, once known, never changes - not during the negotiation either *)
+X_RemoteStable == [][addr.remote # "none" => addr'.remote = addr.remote]_vars
 X_EstablishedHasAddress == result = "ok" => estab.local \notin {"", "none"}     \* (the caller supplied / bound an address)
 (* a step in which the application refused what the peer asked for does not succeed   *)
 X_RefusalNotReady == [][refused /\ ncur # "none" /\ ncur' = "none" => result' = "err"]_vars
